@@ -23,7 +23,7 @@ type SchemaOpts struct {
 	Wide      bool // allow wide bodies (>= 13 entries)
 	Huge      bool // allow populations around the candidate limit (95..130)
 	NoHooks   bool
-	HookPct   int // percent chance that an attribute has a completion hook (default 8)
+	HookPct   int      // percent chance that an attribute has a completion hook (default 8)
 	Paths     []string // names of paths that may be referenced by path targets
 	NoAnyAttr bool
 	LitOnly   bool // only constraints expressible in both syntaxes (C19)
